@@ -42,15 +42,36 @@ def findSub (pat : Bytes) : Bytes → Nat → Option Nat
   | [], i => if pat.isEmpty then some i else none
   | c :: t, i => if pat.isPrefixOf (c :: t) then some i else findSub pat t (i + 1)
 
-/-- the in-place loop of `quotedQualifierParser`: while `"\n" ++ prefix` occurs, delete that
-occurrence of the prefix (the search restarts at the beginning every time).  With an empty
-prefix the Go loop never ends; the fuel ends it here. -/
-def stripCont (pre : Bytes) : Nat → Bytes → Bytes
+/-- the loop of `quotedQualifierParser` BEFORE 2612fae (kept as the old reading; the model no longer
+calls it): while `"\n" ++ prefix` occurs, delete that occurrence of the prefix — the search
+restarted at the beginning of the token every time and the tail was copied down once per round
+(known finding K7E, quadratic time).  With an empty prefix the Go loop never ended; the fuel ends it
+here.  `stripCont_onepass_eq` (Gts/Lemmas/GbStripOnePass.lean): for a non-empty prefix the loop of
+today returns the same value. -/
+def stripContOld (pre : Bytes) : Nat → Bytes → Bytes
   | 0, t => t
   | f + 1, t =>
     match findSub (10 :: pre) t 0 with
     | none => t
-    | some i => stripCont pre f (t.take (i + 1) ++ t.drop (i + 1 + pre.length))
+    | some i => stripContOld pre f (t.take (i + 1) ++ t.drop (i + 1 + pre.length))
+
+/-- the loop `for r := 0; r < len(token); r++` of `quotedQualifierParser` (since 2612fae): one pass,
+every byte of the token is moved once.  `acc` is `token[:w]`, the value so far, REVERSED (its head is
+the byte moved last), the list is `token[r:]`, `rp` is `p = "\n" ++ prefix` reversed and `k` is
+`len(prefix)`: `token[w] = token[r]; w++` puts the byte on `acc`, and when `token[:w]` now ends with
+`p` (`bytes.HasSuffix`) the prefix is cut off again (`w -= len(prefix)`; the line feed stays).  At the
+end of the token the value is `token[:w]`. -/
+def stripLoop (rp : Bytes) (k : Nat) : Bytes → Bytes → Bytes
+  | acc, [] => acc.reverse
+  | acc, c :: t =>
+    if rp.isPrefixOf (c :: acc) then stripLoop rp k ((c :: acc).drop k) t
+    else stripLoop rp k (c :: acc) t
+
+/-- what `quotedQualifierParser(prefix)` makes of the raw text between the quotes: the continuation
+indent is taken out behind every line feed (a counted loop over the token: no fuel; with the empty
+prefix nothing is cut off and the token comes back as it is) -/
+def stripCont (pre : Bytes) (t : Bytes) : Bytes :=
+  stripLoop (10 :: pre).reverse pre.length [] t
 
 /-- `quotedQualifierParser(prefix)` -/
 def quotedValue (pre : Bytes) : P Bytes := do
@@ -61,7 +82,7 @@ def quotedValue (pre : Bytes) : P Bytes := do
   let tok ← (do match ← attempt quoted with | some t => pure t | none => do pop; fail)
   drop
   let _ ← attempt eol
-  pure (stripCont pre tok.length tok)
+  pure (stripCont pre tok)
 
 /-- the continuation loop of `literalQualifierValueParser` (a frame is on the stack) -/
 def literalMore (pre : Bytes) : Nat → Bytes → P Bytes
